@@ -54,3 +54,15 @@ claim("C07", "exploration",
       "Generated libraries (hierarchies to depth 4, repeated instances, extends chains and multiple extends, nested class definitions, extends from an enclosing scope, type aliases, arrays of scalars, prefixes) - every class is flattened by the real code and by an independent reference; variable names, elementary types, prefixes, dimensions and the multiset of (initial) equations by value at random points are compared. Two scoping extensions are generated separately and are known findings.",
       "trusts the reference instantiation in vf/mlib.py; equations compared as value multisets at 4 points",
       "DESIGN.md section 4, C07")
+
+claim("C06", "exploration",
+      "history monitor over tree handles with a parallel library description as executable model; structural copy invariant as diagnostic",
+      "Random histories of deepcopy / add-remove class, symbol, equation / flatten over the original, copies and copies of copies of generated libraries; the harness applies every edit to a per-handle description and compares each flatten with flatten(parse(print(description))). A structural invariant (parent chains stay inside the copy, no node shared with the source) is evaluated after every deepcopy and reported as a diagnostic.",
+      "flatten runs on a pickle clone of the handle; flat results are compared through a semantic projection (not Symbol.order)",
+      "DESIGN.md section 4, C06")
+
+claim("C08", "exploration",
+      "reference merge monitor (vf.mlib) + metamorphic twin monitor over modification spellings on tree.flatten",
+      "Generated chains of class-typed components with an extends level and a type definition, where a parameter value and the attributes of a variable are modified at 2-4 competing levels with literal and name-referencing expressions (same name in inner and outer scope); every library is printed twice with independent spellings (nested / dotted / mixed). Each accepted spelling is compared with the reference merge by value, and two accepted spellings with each other; a rejected spelling is acceptable.",
+      "trusts the merge order implemented in vf/mlib.py (type definition < declaration < extends inner-to-outer < enclosing components inner-to-outer)",
+      "DESIGN.md section 4, C08")
